@@ -61,13 +61,14 @@ type State struct {
 	env   map[ssa.Value]Val
 	heap  map[string]string
 	epoch int
+	alts  []epochAlt
 	alloc string
 	names map[string]Val // source-level local names -> value
 	dead  bool
 }
 
 func (st *State) clone() *State {
-	n := &State{reach: st.reach, epoch: st.epoch, alloc: st.alloc, dead: st.dead,
+	n := &State{reach: st.reach, epoch: st.epoch, alts: st.alts, alloc: st.alloc, dead: st.dead,
 		env: make(map[ssa.Value]Val, len(st.env)+8), heap: make(map[string]string, len(st.heap)+4),
 		names: make(map[string]Val, len(st.names)+4)}
 	for k, v := range st.env {
@@ -202,13 +203,37 @@ func (vc *VC) heapGet(st *State, name string) string {
 	if t, ok := st.heap[name]; ok {
 		return t
 	}
-	n := fmt.Sprintf("%s@%d", name, st.epoch)
-	if !vc.declared[n] {
-		vc.declared[n] = true
-		vc.declare(n, "(Array Ref "+vc.heapSort[name]+")")
-		vc.typedHeapAxiom(name, n)
+	ver := func(epoch int) string {
+		n := fmt.Sprintf("%s@%d", name, epoch)
+		if !vc.declared[n] {
+			vc.declared[n] = true
+			vc.declare(n, "(Array Ref "+vc.heapSort[name]+")")
+			vc.typedHeapAxiom(name, n)
+		}
+		return n
 	}
-	return n
+	if len(st.alts) > 0 {
+		// state merged from paths with different havoc epochs: a heap variable
+		// first touched after the merge is the ite of its per-path versions
+		t := ver(st.alts[len(st.alts)-1].epoch)
+		for i := len(st.alts) - 2; i >= 0; i-- {
+			t = ite(st.alts[i].cond, ver(st.alts[i].epoch), t)
+		}
+		if len(t) > 60 {
+			n := vc.fresh(name)
+			vc.declare(n, "(Array Ref "+vc.heapSort[name]+")")
+			vc.assume("(= " + n + " " + t + ")")
+			t = n
+		}
+		st.heap[name] = t
+		return t
+	}
+	return ver(st.epoch)
+}
+
+type epochAlt struct {
+	cond  string
+	epoch int
 }
 
 // typedHeapAxiom: every value stored in a fresh (unconstrained) heap version
@@ -255,6 +280,7 @@ func (vc *VC) havocHeapVar(st *State, name string) {
 func (vc *VC) havocAll(st *State) {
 	vc.nepoch++
 	st.epoch = vc.nepoch
+	st.alts = nil
 	st.heap = map[string]string{}
 	for _, h := range vc.heapVars {
 		vc.written[h] = true
@@ -722,28 +748,36 @@ func (vc *VC) mergeStates(sts []*State, conds []string) *State {
 		}
 	}
 	// heap
-	sameEpoch := true
+	sameEpoch := len(sts[0].alts) == 0
 	for _, s := range sts[1:] {
-		if s.epoch != sts[0].epoch {
+		if s.epoch != sts[0].epoch || len(s.alts) > 0 {
 			sameEpoch = false
 		}
 	}
 	var keys []string
-	if sameEpoch {
-		n.epoch = sts[0].epoch
-		seen := map[string]bool{}
-		for _, s := range sts {
-			for k := range s.heap {
-				if !seen[k] {
-					seen[k] = true
-					keys = append(keys, k)
-				}
+	seen := map[string]bool{}
+	for _, s := range sts {
+		for k := range s.heap {
+			if !seen[k] {
+				seen[k] = true
+				keys = append(keys, k)
 			}
 		}
+	}
+	if sameEpoch {
+		n.epoch = sts[0].epoch
 	} else {
-		vc.nepoch++
-		n.epoch = vc.nepoch
-		keys = append(keys, vc.heapVars...)
+		// heap variables first touched after this join are resolved per path
+		n.epoch = sts[0].epoch
+		for i, s := range sts {
+			if len(s.alts) > 0 {
+				for _, a := range s.alts {
+					n.alts = append(n.alts, epochAlt{and(conds[i], a.cond), a.epoch})
+				}
+			} else {
+				n.alts = append(n.alts, epochAlt{conds[i], s.epoch})
+			}
+		}
 	}
 	sort.Strings(keys)
 	for _, k := range keys {
